@@ -364,6 +364,57 @@ class ExprMixin(object):
         ty = Ty('list', [ety])
       yield st1, self.new_list(st1, ty, vals)
 
+  def ev_ListComp(self, node, st, cx):
+    """[elt for x in <list> if cond]: a fresh list described by a strictly increasing index map
+    into the source list (order preserving, complete: every element satisfying cond appears)."""
+    if len(node.generators) != 1 or node.generators[0].is_async or len(node.generators[0].ifs) > 1 \
+        or not isinstance(node.generators[0].target, ast.Name):
+      raise Unsupported('list comprehension shape (line %d)' % node.lineno)
+    gen = node.generators[0]
+    var = gen.target.id
+    for st1, src in self.ev(gen.iter, st, cx):
+      if isinstance(src, Exc):
+        yield st1, src
+        continue
+      if not (isinstance(src, V) and src.ty.k == 'list'):
+        raise Unsupported('list comprehension over %r (line %d)' % (src, node.lineno))
+      n = self.list_len(st1, src)
+      j = z3.Int(fresh_name('cj'))
+      fid = fresh_name('lc')
+      st1.frames[fid] = {var: self.list_get(st1, src, j)}
+      ccx = Ctx(cx.mod, cx.cls, [fid] + list(cx.chain), cx.spec, cx.qual)
+      self.spec_depth += 1      # element / filter expressions must be pure
+      try:
+        elt = self.ev1(node.elt, st1, ccx)
+        cond = self.truth(st1, self.ev1(gen.ifs[0], st1, ccx)) if gen.ifs else z3.BoolVal(True)
+      finally:
+        self.spec_depth -= 1
+        st1.frames.pop(fid, None)
+      if not isinstance(elt, V) or elt.ty.k == 'tuple':
+        raise Unsupported('list comprehension element (line %d)' % node.lineno)
+      ty = self.expected_type(cx, node) or Ty('list', [elt.ty])
+      r = self.new_ref(st1)
+      res = V(ty.with_opt(False), r)
+      m = z3.Int(fresh_name('clen'))
+      st1.assume(z3.And(m >= 0, m <= n))
+      self.set_list_len(st1, res, m)
+      idx = z3.Function(fresh_name('cidx'), I, I)
+      k, k2 = z3.Int(fresh_name('k')), z3.Int(fresh_name('k2'))
+      key = self.ckey(ty, 'items')
+      arr = self.arr(st1, key, [I, I, base_sort(elt.ty)])
+      items = z3.Const(fresh_name('citems'), z3.ArraySort(I, base_sort(elt.ty)))
+      st1.heap[key] = z3.Store(arr, r, items)
+      sub = lambda t, v: z3.substitute(t, (j, v))
+      st1.assume(z3.ForAll([k], z3.Implies(z3.And(0 <= k, k < m),
+                 z3.And(0 <= idx(k), idx(k) < n, z3.Select(items, k) == sub(coerce(elt, elt.ty), idx(k)), sub(cond, idx(k))))))
+      st1.assume(z3.ForAll([k, k2], z3.Implies(z3.And(0 <= k, k < k2, k2 < m), idx(k) < idx(k2))))
+      jj = z3.Int(fresh_name('jj'))
+      st1.assume(z3.ForAll([jj], z3.Implies(z3.And(0 <= jj, jj < n, sub(cond, jj)),
+                 z3.Exists([k], z3.And(0 <= k, k < m, idx(k) == jj)))))
+      if not gen.ifs:
+        st1.assume(m == n)
+      yield st1, res
+
   def expected_type(self, cx, node):
     """Declared type for a literal: via the assigned name/field, or the sidecar 'literals' table."""
     t = getattr(node, '_pyvc_type', None)
